@@ -98,6 +98,28 @@ Theorem C07_interleave_refuted :
 Proof. exact interleave_refuted. Qed.
 Print Assumptions C07_interleave_refuted.
 
+(* ---- objects the handlers receive as arguments (component_obj, synapse_obj, ...) are a store that every builder shares, whatever
+        the placement of the handlers' own fields.  Fields may be Shared as long as every handler leaves them as it found them ... *)
+Theorem C07_interleave_shared_read_only :
+  forall (F V : Type) (pl : F -> bool) sched,
+    Forall (hext F V) (map snd sched) ->
+    Forall (fun h => forall v f, pl f = false -> h v f = v f) (map snd sched) ->
+    forall w s f, view F V pl w (run_sched F V pl sched s) f = run_solo F V (proj F V w sched) (view F V pl w s) f.
+Proof. exact interleave_view_frozen. Qed.
+Print Assumptions C07_interleave_shared_read_only.
+
+(* ... and a handler that records "already appended" in a flag ON the argument object is refuted: field true = the builder's own
+   document (Own), field false = the flag on the caller's object; B, given the object A has seen, leaves the component out *)
+Theorem C07_argument_flag_refuted :
+  let pl := fun f : bool => f in
+  let sched := [(WA, flag_handler); (WB, flag_handler)] in
+  let s := {| sh := fun _ => 0; ownA := fun _ => 0; ownB := fun _ => 0 |} in
+  Forall (hext bool nat) (map snd sched) /\
+  view bool nat pl WB (run_sched bool nat pl sched s) true = 0 /\
+  run_solo bool nat (proj bool nat WB sched) (view bool nat pl WB s) true = 1.
+Proof. exact argument_flag_refuted. Qed.
+Print Assumptions C07_argument_flag_refuted.
+
 (* ---- interleaving, NetworkBuilder model (an instance of the abstract system): any schedule, any length ---- *)
 Theorem C07_builder_interleave :
   forall eg p, (forall d, p d = true) ->
@@ -119,13 +141,14 @@ Proof. exact each_dict_matters. Qed.
 Print Assumptions C07_each_dict_matters.
 
 (* ==== INSTANCE ==== (everything below is about the table regenerated from the working tree) *)
-From Run Require Import Gen_C07 Inst_C07_defaults Inst_C07_fields Inst_C07_globals Inst_C07_classmeta Inst_C07_process.
+From Run Require Import Gen_C07 Inst_C07_defaults Inst_C07_fields Inst_C07_globals Inst_C07_classmeta Inst_C07_process Inst_C07_argwrites.
 
 Theorem C07_state_ok : state_ok Gen_C07.table = true.
 Proof.
   exact (proj2 (state_ok_split Gen_C07.table)
                (conj Inst_C07_defaults.defaults_ok (conj Inst_C07_fields.fields_ok
-                  (conj Inst_C07_globals.globals_ok (conj Inst_C07_classmeta.classmeta_ok Inst_C07_process.process_state_ok))))).
+                  (conj Inst_C07_globals.globals_ok (conj Inst_C07_classmeta.classmeta_ok
+                     (conj Inst_C07_process.process_state_ok Inst_C07_argwrites.argument_writes_ok)))))).
 Qed.
 Print Assumptions C07_state_ok.
 
@@ -172,3 +195,10 @@ Theorem C07_process_state_is_restored :
     ps_import_time s = true \/ ps_restored s = true \/ known_proc_site s = true.
 Proof. exact (proj1 (process_ok_spec Gen_C07.table) Inst_C07_process.process_state_ok). Qed.
 Print Assumptions C07_process_state_is_restored.
+
+(* no handle* / finalise* method of NetworkBuilder / DefaultNetworkHandler (or a class derived from them) writes an attribute of an
+   object it received as an argument: the caller's component / synapse / input objects are a read-only store for the handlers *)
+Theorem C07_handlers_do_not_write_argument_objects :
+  forall s, In s (st_argwrites Gen_C07.table) -> aw_handler s = false.
+Proof. exact (proj1 (argwrites_ok_spec Gen_C07.table) Inst_C07_argwrites.argument_writes_ok). Qed.
+Print Assumptions C07_handlers_do_not_write_argument_objects.
